@@ -97,6 +97,7 @@ type jBScenario struct {
 	Deviant   int      `json:"deviant"`
 	Deviation string   `json:"deviation"`
 	Victims   []int    `json:"victims"`
+	IDs       []int    `json:"ids"`      // participant identifiers in session order; party records, victims, events are by RANK (1..n)
 	Schedule  string   `json:"schedule"` // random (any pending message next, links are NOT FIFO) | a directed pattern "name X->Y"
 	Parties   []jParty `json:"parties"`
 	Stuck     bool     `json:"stuck"`
@@ -152,6 +153,8 @@ type world struct {
 	dev      *deviation
 	delivers int
 	sched    *sched
+	ids      []uint16        // identifier of the party of rank i+1
+	rank     map[uint16]int  // identifier -> rank
 	seen     map[[3]int]bool // (from, to, tag) delivered at least once
 }
 
@@ -488,11 +491,26 @@ func (w *world) outgoing(p *bparty, data []byte, bcast bool, to int) {
 }
 
 // ---------------------------------------------------------------- running one scenario
+// ident: the identifier of the party of the given rank (ranks are 1..n, the evaluation points of the sharing)
+func (w *world) ident(rank int) uint16 {
+	if w.ids == nil {
+		return uint16(rank)
+	}
+	return w.ids[rank-1]
+}
+
+func (w *world) rankOf(id uint16) int {
+	if w.ids == nil {
+		return int(id)
+	}
+	return w.rank[id]
+}
+
 func (w *world) newInstance(id int) kgParty {
 	if w.pkg == "bls" {
-		return &bls.TBLS{Party: uint16(id), Logger: nolog{}}
+		return &bls.TBLS{Party: w.ident(id), Logger: nolog{}}
 	}
-	return &ps.TPS{Curve: curve, Party: uint16(id), Logger: nolog{}, MessageLength: 1}
+	return &ps.TPS{Curve: curve, Party: w.ident(id), Logger: nolog{}, MessageLength: 1}
 }
 
 func toBig(z *math.Zr) *big.Int { n, _ := new(big.Int).SetString(z.String(), 16); return n }
@@ -510,7 +528,7 @@ func (w *world) send(p *bparty, data []byte, bcast bool, to uint16) {
 		p.bcasts = append(p.bcasts, 3)
 		p.revealAt = len(p.commits)
 	}
-	w.outgoing(p, cp, bcast, int(to))
+	w.outgoing(p, cp, bcast, w.rankOf(to))
 }
 
 // sched: a directed schedule on top of the random one.  Deliveries are never FIFO per link (any pending message may be
@@ -522,12 +540,13 @@ func (w *world) send(p *bparty, data []byte, bcast bool, to uint16) {
 // Both are possible with honest parties only: a party emits its commitment / key independently of what the held message
 // unblocks at Y (holding a share until the same sender's KEY arrived would deadlock: the key needs Y's commitment).
 type sched struct {
-	pattern string
+	pattern string // "": random only
 	x, y    int
+	ids     []uint16 // participant identifiers in session order (nil: 1..n); everything else in the harness is by RANK
 }
 
 func (sc *sched) String() string {
-	if sc == nil {
+	if sc == nil || sc.pattern == "" {
 		return "random"
 	}
 	return sc.pattern + " " + string(rune('0'+sc.x)) + "->" + string(rune('0'+sc.y))
@@ -668,7 +687,7 @@ func (w *world) deliver(m *pmsg) {
 				w.mu.Unlock()
 			}
 		}()
-		target.inst.OnMsg(append([]byte{}, m.data...), uint16(m.from), m.bcast)
+		target.inst.OnMsg(append([]byte{}, m.data...), w.ident(m.from), m.bcast)
 	}()
 }
 
@@ -691,6 +710,16 @@ func runBScenario(id int, pkg string, n, t int, dv *deviation, seed uint64, sch 
 	ids := make([]uint16, n)
 	for i := range ids {
 		ids[i] = uint16(i + 1)
+	}
+	if w.sched != nil && w.sched.ids != nil {
+		ids = append([]uint16{}, w.sched.ids...)
+		w.ids, w.rank = ids, map[uint16]int{}
+		for i, x := range ids {
+			w.rank[x] = i + 1
+		}
+	}
+	for _, x := range ids {
+		sc.IDs = append(sc.IDs, int(x))
 	}
 	for i := 1; i <= n; i++ {
 		p := &bparty{id: i, inst: w.newInstance(i), honest: dv == nil || dv.party != i, shares: map[int][]*big.Int{},
@@ -900,7 +929,7 @@ func (w *world) collect(sc *jBScenario) {
 					sc.SignOK = false
 				}
 				sigs = append(sigs, sig)
-				signers = append(signers, uint16(x))
+				signers = append(signers, w.ident(x))
 			}
 			agg, err := v.AggregateSignatures(sigs, signers)
 			if err != nil || v.Verify(digest[:], agg) != nil {
@@ -939,6 +968,13 @@ func victimSets(p *prng, n, deviant int, all bool) []map[int]bool {
 	return []map[int]bool{res[p.intn(len(honest))%len(res)], res[len(res)-1]}
 }
 
+var idSets = map[int][][]uint16{
+	2: {{3, 7}, {1, 3}},
+	3: {{1, 2, 4}, {2, 3, 5}, {0, 1, 2}, {255, 256, 300}, {65533, 65534, 65535}},
+	4: {{1, 3, 4, 6}, {2, 3, 5, 9}, {1, 2, 3, 5}},
+	5: {{1, 2, 4, 8, 16}, {2, 3, 4, 5, 6}},
+}
+
 // scheduleFamily: delivery schedules without per-link FIFO.  Directed cases (one per pattern and pair) plus random ones,
 // everybody honest and with a deviating participant.  Returns the next free scenario id.
 func scheduleFamily(r *prng, id int, pkg string, n, t int, thorough bool, byz bool) int {
@@ -957,7 +993,7 @@ func scheduleFamily(r *prng, id int, pkg string, n, t int, thorough bool, byz bo
 		}
 		for _, pr := range sel {
 			id++
-			emit(runBScenario(id, pkg, n, t, nil, r.next(), &sched{pat, pr[0], pr[1]}))
+			emit(runBScenario(id, pkg, n, t, nil, r.next(), &sched{pattern: pat, x: pr[0], y: pr[1]}))
 		}
 	}
 	randomRuns := 2
@@ -967,6 +1003,22 @@ func scheduleFamily(r *prng, id int, pkg string, n, t int, thorough bool, byz bo
 	for k := 0; k < randomRuns; k++ {
 		id++
 		emit(runBScenario(id, pkg, n, t, nil, r.next()))
+	}
+	// participant identifier sets that are not 1..n: gaps, not starting at 1, boundary values.  The sharing is evaluated at
+	// the RANK of a party in the session order, never at its identifier.
+	sets := idSets[n]
+	if !thorough && len(sets) > 2 {
+		k := r.intn(len(sets) - 1)
+		sets = [][]uint16{sets[0], sets[1+k]}
+	}
+	for si, ids := range sets {
+		id++
+		emit(runBScenario(id, pkg, n, t, nil, r.next(), &sched{ids: ids}))
+		if si == 0 || thorough {
+			pr := pairs[r.intn(len(pairs))]
+			id++
+			emit(runBScenario(id, pkg, n, t, nil, r.next(), &sched{pattern: "reveal-overtakes-commit", x: pr[0], y: pr[1], ids: ids}))
+		}
 	}
 	if !byz || n < 3 {
 		return id
@@ -989,7 +1041,7 @@ func scheduleFamily(r *prng, id int, pkg string, n, t int, thorough bool, byz bo
 			pat = "reveal-overtakes-commit" // holding a share until commitments that are themselves held back would just stall
 		}
 		id++
-		emit(runBScenario(id, pkg, n, t, &deviation{kind: kind, party: deviant, victims: map[int]bool{y: true}}, r.next(), &sched{pat, x, y}))
+		emit(runBScenario(id, pkg, n, t, &deviation{kind: kind, party: deviant, victims: map[int]bool{y: true}}, r.next(), &sched{pattern: pat, x: x, y: y, ids: idSets[n][r.intn(len(idSets[n]))]}))
 	}
 	return id
 }
